@@ -96,10 +96,9 @@ FindPivot(R, m, r, c) ==
   ELSE LET cc == SetMin(cols) IN [found |-> TRUE, c |-> cc, r |-> SetMin({i \in r .. m - 1 : cc \in R[i]})]
 
 \* ---- the block loop -----------------------------------------------------------------------------
-RECURSIVE Loop(_, _, _, _, _, _, _)
-Loop(R, m, n, full, k, r, c) ==
-  IF c >= n THEN [R |-> R, rank |-> r]
-  ELSE LET kk == Min({KM * k, n - c})
+\* one pass of the block loop from (r, c): [R, r, c, stop] - stop: the block ended early and no further pivot exists
+Step(R, m, n, full, k, r, c) ==
+       LET kk == Min({KM * k, n - c})
            g == IF full THEN GaussSubFull(R, r, c, m, kk) ELSE GaussSub(R, r, c, m, kk)
            kbar == g.kbar
            saved == g.R                                            \* U = pivot rows before the top reduction
@@ -112,8 +111,13 @@ Loop(R, m, n, full, k, r, c) ==
            r2 == r + kbar  c2 == c + kbar
        IN IF kk # kbar
           THEN LET p == FindPivot(R4, m, r2, c2) IN
-               IF p.found THEN Loop(SwapF(R4, r2, p.r), m, n, full, k, r2, p.c) ELSE [R |-> R4, rank |-> r2]
-          ELSE Loop(R4, m, n, full, k, r2, c2)
+               IF p.found THEN [R |-> SwapF(R4, r2, p.r), r |-> r2, c |-> p.c, stop |-> FALSE] ELSE [R |-> R4, r |-> r2, c |-> c2, stop |-> TRUE]
+          ELSE [R |-> R4, r |-> r2, c |-> c2, stop |-> FALSE]
+RECURSIVE Loop(_, _, _, _, _, _, _)
+Loop(R, m, n, full, k, r, c) ==
+  IF c >= n THEN [R |-> R, rank |-> r]
+  ELSE LET s == Step(R, m, n, full, k, r, c) IN
+       IF s.stop THEN [R |-> s.R, rank |-> s.r] ELSE Loop(s.R, m, n, full, k, s.r, s.c)
 
 \* ---- _mzd_top_echelonize_m4ri(A, k, r, c, max_r): completes a row echelon form to the reduced one ------------
 \* per block: Gauss on the (at most kk) rows from r on, tables from the kbar pivot rows, look-up applied to the rows ABOVE
